@@ -338,32 +338,24 @@ theorem C07_session_answered_once (cfg : Cfg) (pre post : List Case) (c : Case) 
 
 /-! ### every write path of the handler's encoder runs the detector -/
 
-/-- the three methods a handler can write with -/
-inductive WriteMethod | encodeToken | encode | encodeElement
-  deriving DecidableEq, Repr
+/-- the methods a handler can write with and the kinds of value it can hand them (numbering of
+the probe table): `EncodeToken`; `Encode` with an `xmlstream.Marshaler`, an `xmlstream.WriterTo`,
+an `xml.TokenReader`, a plain struct; `EncodeElement` with a Marshaler, a WriterTo -/
+def writeMethods : List Nat := [0, 1, 2, 3, 4, 5, 6]
 
-/-- where a method of `responseChecker` sends its tokens, as read from the source: through the
-checker's own `EncodeToken` (`true`) or around it -/
-def routesThroughChecker (paths : List (String × String)) (m : WriteMethod) : Bool :=
-  match m with
-  | .encodeToken => paths.contains ("EncodeToken", "detector checker.TokenWriter.EncodeToken")
-  | .encode => paths.contains ("Encode", "marshal.EncodeXML(checker)")
-  | .encodeElement => paths.contains ("EncodeElement", "marshal.EncodeXMLElement(checker)")
-
-/-- **tie to the source (regenerated from the AST of session.go on every run)**: `responseChecker`
-has exactly three writing methods; `Encode` and `EncodeElement` marshal into the checker itself
-(so every token they produce passes `EncodeToken`), and `EncodeToken` runs the detector before
-it hands the token to the session's writer — no method writes around the detector -/
+set_option maxRecDepth 20000 in
+/-- **tie to the source (regenerated on every run by probing real sessions, no source pattern
+involved)**: for every probed shape — the complete domain nesting level 0–2 × name class × id
+class × type class through `EncodeToken`, and the part of it that shows whether the detector ran
+and at which level through every other method — the real session took what the handler wrote
+for the reply exactly when the model's detector sets its flag; every method occurs in the table
+with a shape that was recognised and one that was not (a write path around the detector, a
+detector that ignores the level, the id, the type or the namespace all change the table) -/
 theorem C07_gen_write_paths :
-    Generated.C07.writePaths = some [
-      ("Encode", "marshal.EncodeXML(checker)"),
-      ("EncodeElement", "marshal.EncodeXMLElement(checker)"),
-      ("EncodeToken", "detector checker.TokenWriter.EncodeToken")] ∧
-    ∃ paths, Generated.C07.writePaths = some paths ∧ paths.length = 3 ∧
-      ∀ m : WriteMethod, routesThroughChecker paths m = true := by
-  refine ⟨by decide, _, rfl, by decide, ?_⟩
-  intro m
-  cases m <;> decide
+    ∃ t, Generated.C07.detectorProbe = some t ∧ t.length = 454 ∧
+      (∀ e ∈ t, probeVerdict e.2.1 e.2.2.1 e.2.2.2.1 e.2.2.2.2.1 = e.2.2.2.2.2) ∧
+      (∀ m ∈ writeMethods, (t.any fun e => e.1 == m && e.2.2.2.2.2) ∧ (t.any fun e => e.1 == m && !e.2.2.2.2.2)) := by
+  refine ⟨_, rfl, by decide, by decide, by decide⟩
 
 /-- the detector's verdict depends only on the tokens that the handler's writes put on the
 stream, in order — not on how they were grouped into calls, nor (given `C07_gen_write_paths`)
